@@ -58,6 +58,9 @@ func TestGovcBounded(t *testing.T) {
 				{Name: "F", Type: reflect.ArrayOf(2, k), Tag: `json:"f"`},
 				{Name: "G", Type: reflect.MapOf(k, k), Tag: `json:"g"`},
 				{Name: "H", Type: reflect.MapOf(reflect.TypeOf(""), k), Tag: `json:"h"`},
+				{Name: "S", Type: reflect.PtrTo(k), Tag: `json:"s,string"`},
+				{Name: "T", Type: reflect.PtrTo(k), Tag: `json:"t,omitempty,string"`},
+				{Name: "U", Type: k, Tag: `json:"u,omitempty,string"`},
 				{Name: "Z", Type: k, Tag: `json:"z"`},
 			})).Elem()
 			st.Field(0).Set(v)
@@ -74,7 +77,12 @@ func TestGovcBounded(t *testing.T) {
 			m2 := reflect.MakeMap(reflect.MapOf(reflect.TypeOf(""), k))
 			m2.SetMapIndex(reflect.ValueOf("k"), v)
 			st.Field(7).Set(m2)
-			st.Field(8).Set(v)
+			ps := reflect.New(k)
+			ps.Elem().Set(v)
+			st.Field(8).Set(ps)
+			st.Field(9).Set(ps)
+			st.Field(10).Set(v)
+			st.Field(11).Set(v)
 			for _, val := range []interface{}{v.Interface(), p.Interface(), st.Interface(), st.Addr().Interface()} {
 				n++
 				what := fmt.Sprintf("%v value %v in %T", k, v.Interface(), val)
@@ -125,6 +133,39 @@ func TestGovcBounded(t *testing.T) {
 						}
 					}
 				}
+			}
+		}
+	}
+	// what is not one whole JSON integer is an error under the string tag and as a map key
+	for _, k := range kinds {
+		stT := reflect.StructOf([]reflect.StructField{{Name: "A", Type: k, Tag: `json:"a,string"`}})
+		mT := reflect.MapOf(k, reflect.TypeOf(0))
+		for _, txt := range []string{"1.5", "1.0", "1e2", "0.0", "01", "-01", "1x", "0x10", " 1", "1 ", "", "-", "1_0", "--1", "1-"} {
+			for mode := 0; mode < 2; mode++ {
+				for _, tc := range []struct {
+					what string
+					typ  reflect.Type
+					doc  string
+				}{{"string-tag", stT, `{"a":"` + txt + `"}`}, {"map-key", mT, `{"` + txt + `":1}`}} {
+					n++
+					back := reflect.New(tc.typ)
+					var derr error
+					if mode == 0 {
+						derr = Unmarshal([]byte(tc.doc), back.Interface())
+					} else {
+						derr = NewDecoder(bytes.NewReader([]byte(tc.doc))).Decode(back.Interface())
+					}
+					if derr == nil {
+						record(fmt.Sprintf("not-an-integer-accepted-%s-mode%d", tc.what, mode), fmt.Sprintf("%s decodes into %v as %v", tc.doc, tc.typ, back.Elem().Interface()))
+					}
+				}
+			}
+		}
+		for _, doc := range []string{`{null:1}`, `{1:1}`, `{true:1}`, `{"1":1,null:2}`} {
+			n++
+			back := reflect.New(mT)
+			if Unmarshal([]byte(doc), back.Interface()) == nil {
+				record("non-string-key-accepted", fmt.Sprintf("%s decodes into %v as %v", doc, mT, back.Elem().Interface()))
 			}
 		}
 	}
